@@ -104,10 +104,26 @@ func mergeYaml(e any, o any, p tree.Path) (any, error) {
 	}
 }
 
+// userNamedKeys are the mappings whose keys are names chosen by the user (a service or a volume may be
+// called `x-something`): there an `x-` key is a resource like the others, not an extension
+var userNamedKeys = []tree.Path{"services", "services.*.depends_on", "volumes", "networks", "secrets", "configs"}
+
+func isExtension(key string, p tree.Path) bool {
+	if !strings.HasPrefix(key, "x-") {
+		return false
+	}
+	for _, named := range userNamedKeys {
+		if p.Matches(named) {
+			return false
+		}
+	}
+	return true
+}
+
 func mergeMappings(mapping map[string]any, other map[string]any, p tree.Path) (map[string]any, error) {
 	for k, v := range other {
 		e, ok := mapping[k]
-		if !ok || strings.HasPrefix(k, "x-") {
+		if !ok || isExtension(k, p) {
 			mapping[k] = v
 			continue
 		}
